@@ -55,17 +55,80 @@ def stepClean (ins impl : List String) : Option String := do
     pure (verdict (m == i) none (hexEncode m))
   | _, _ => none
 
-def step (_ : Unit) (line : String) : Unit × String :=
+def parseCtx (f : List String) : Option Ctx := do
+  match f with
+  | [proto, hasPath, path, hasTLS, tlsName, hostHdr, splitOk, splitHost, connOk, connSNI, hostSrv, strict] =>
+    pure {
+      proto := ← parseProto proto
+      path := optOf (← parseBool hasPath) (← hexDecode path)
+      httpTLS := optOf (← parseBool hasTLS) (← hexDecode tlsName)
+      hostHdr := ← hexDecode hostHdr
+      hostSplit := optOf (← parseBool splitOk) (← hexDecode splitHost)
+      connSNI := optOf (← parseBool connOk) (← hexDecode connSNI)
+      hostSrvName := ← hexDecode hostSrv
+      strict := ← parseBool strict }
+  | _ => none
+
+/-- `C16.hb reqID <ctx>` : HandleBefore; impl = ok id | err kind.  The spec
+part: whatever the cache held, a request that passes is attributed (by the
+immediately following read under the same number) to the id of its own ctx;
+the monitor state remembers what the last `hb` of each number extracted. -/
+structure St where
+  cache : Cache := []
+  /-- what the spec expects `attr r` to return: the id extracted from the last
+  request with number r that passed HandleBefore -/
+  expect : List (Nat × Bytes) := []
+
+def stepHB (st : St) (ins impl : List String) : Option (St × String) := do
+  match ins, impl with
+  | rid :: ctxf, [tag, val] =>
+    let r ← rid.toNat?
+    let c ← parseCtx ctxf
+    let implOut : Except Err Bytes ←
+      (if tag == "ok" then (hexDecode val).map Except.ok
+       else if tag == "err" then (parseErr val).map Except.error else none)
+    let (cache', m) := handleBefore st.cache r c
+    let agree := showOut m == showOut implOut
+    let spec := if specOK c implOut then none else some "C16.specOK"
+    -- spec-side bookkeeping uses the IMPLEMENTATION's verdict: a passed request
+    -- must later be attributed to the id its own context yields per the spec model
+    let expect' := match implOut with
+      | .ok _ => (r, match clientIDFromCtx c with | .ok id => id | .error _ => []) :: st.expect.filter (·.1 != r)
+      | .error _ => st.expect
+    pure ({ cache := cache', expect := expect' }, verdict agree spec (showOut m))
+  | _, _ => none
+
+def stepAttr (st : St) (ins impl : List String) : Option (St × String) := do
+  match ins, impl with
+  | [rid], [val] =>
+    let r ← rid.toNat?
+    let i ← hexDecode val
+    let m := attributed st.cache r
+    let want := match st.expect.find? (·.1 == r) with | some (_, id) => id | none => []
+    let spec := if i == want then none else some "C16.attributed-to-other-request"
+    pure (st, verdict (m == i) spec (hexEncode m))
+  | _, _ => none
+
+def step (st : St) (line : String) : St × String :=
   let fs := splitTab line
   match fs with
+  | "C16.reset" :: _ => ({}, verdict true none "reset")
   | "C16.ctx" :: rest =>
     match splitArrow rest with
-    | some (ins, impl) => ((), (stepCtx ins impl).getD "bad-op")
-    | none => ((), "bad-op")
+    | some (ins, impl) => (st, (stepCtx ins impl).getD "bad-op")
+    | none => (st, "bad-op")
   | "C16.clean" :: rest =>
     match splitArrow rest with
-    | some (ins, impl) => ((), (stepClean ins impl).getD "bad-op")
-    | none => ((), "bad-op")
-  | _ => ((), "bad-op")
+    | some (ins, impl) => (st, (stepClean ins impl).getD "bad-op")
+    | none => (st, "bad-op")
+  | "C16.hb" :: rest =>
+    match splitArrow rest with
+    | some (ins, impl) => (match stepHB st ins impl with | some (s', o) => (s', o) | none => (st, "bad-op"))
+    | none => (st, "bad-op")
+  | "C16.attr" :: rest =>
+    match splitArrow rest with
+    | some (ins, impl) => (match stepAttr st ins impl with | some (s', o) => (s', o) | none => (st, "bad-op"))
+    | none => (st, "bad-op")
+  | _ => (st, "bad-op")
 
-def main : IO Unit := run step ()
+def main : IO Unit := run step ({} : St)
